@@ -237,6 +237,9 @@ def run(ctx, out, tier):
     shared.sh_err(ctx, out, bodies, floor=300)
     shared.sh_main(ctx, out)
     shared.sh_traverse(ctx, out)
+    # an unbalanced tag can only be reported if the comment holding it is found at all
+    from rules.C03 import check_treewalk
+    check_treewalk(ctx, out, rule="C12.walk")
     from rules.C01 import check_skipfile
     check_skipfile(ctx, out, rule="C12.skipfile")
     return meta()
